@@ -275,7 +275,7 @@ func Describe(c Case) string {
 				fr = fr[:300] + "…"
 			}
 		}
-		fmt.Fprintf(&b, "N=%d limit=%d %-26s %s max_height=%d base_depth=%d steps=%d\n    base frames: %s\n", c.N, c.Limit, cfg, o.Out.String(), o.MaxHeight, depth, o.Steps, fr)
+		fmt.Fprintf(&b, "N=%d limit=%d %-26s %s max_height=%d base_depth=%d steps=%d\n    base frames: %s\n", c.N, optsOf(c).Limit, cfg, o.Out.String(), o.MaxHeight, depth, o.Steps, fr)
 	}
 	fs, _ := checkProgram(nil, c, allConfigs)
 	for _, f := range fs {
